@@ -4,13 +4,26 @@ from app/variations.rs).
 Every `impl ToVariation<GroupXVarY> for T` / `impl From<GroupXVarY> for T` becomes one table row
 saying which measurement field or conversion feeds which variation field.  Each field initialiser
 must be one of the recognised expression shapes; anything else is a broken tie (never a guess).
-Hand-modelled functions of C10 get a token hash recorded (change-directed effort, not an alarm).
+
+The three analog conversions themselves (`AnalogConversions::{to_i16,to_i32,to_f32}`, default methods
+of the trait in dnp3/src/app/measurement.rs) are translated too: each body must be a sequence of
+`if <guard> { return (<flags>, <value>); }` followed by a final `(<flags>, <value>)`, with guards,
+flag expressions and value expressions taken from small closed sets (`analogConvs`; the model
+interprets the rows).  `Self::OVER_RANGE` is resolved through util/bit.rs.  Anything else is a
+broken tie.
+Other hand-modelled functions of C10 get a token hash recorded (change-directed effort, not an alarm).
 """
 import re
 
 SRC = "dnp3/src/app/gen/conversion.rs"
 VARS = "dnp3/src/app/variations.rs"
 GEN = "Conversions.lean"
+MEAS = "dnp3/src/app/measurement.rs"
+EXT = "dnp3/src/app/extensions.rs"
+BIT = "dnp3/src/util/bit.rs"
+# conversion fn -> (Lean constructor, target type)
+ACONV = {"to_i16": ("toI16", "i16"), "to_i32": ("toI32", "i32"), "to_f32": ("toF32", "f32")}
+A_FLAGS = {"self.get_flags().with_bits_set(Self::OVER_RANGE)": "true", "self.get_flags()": "false"}
 
 MTY = {
     "BinaryInput": "bi", "BinaryOutputStatus": "bo", "DoubleBitBinaryInput": "db", "Counter": "ct",
@@ -57,6 +70,126 @@ def struct_fields(vtext, g, v):
     for f in re.finditer(r"pub\(crate\)\s+(\w+)\s*:\s*([\w:]+)\s*,", m.group(1)):
         res[f.group(1)] = f.group(2)
     return res
+
+
+def brace_body(text, start):
+    """text[start] is just after an opening brace: -> (body, index after the closing brace)"""
+    depth, j = 1, start
+    while depth and j < len(text):
+        if text[j] == "{":
+            depth += 1
+        elif text[j] == "}":
+            depth -= 1
+        j += 1
+    return text[start: j - 1], j
+
+
+def analog_conversions(api):
+    """-> (rows, over_range_mask, bad): the default methods of `trait AnalogConversions`"""
+    bad = []
+    rows = []
+    mask = None
+    text = api.strip_tests(api.strip_comments(api.src(MEAS)))
+    tm = re.search(r"trait\s+AnalogConversions\s*\{", text)
+    if not tm:
+        return rows, mask, ["trait AnalogConversions"]
+    body, _ = brace_body(text, tm.end())
+    # const OVER_RANGE: BitMask = bits::BIT_n;  resolved in util/bit.rs
+    cm = re.search(r"const\s+OVER_RANGE\s*:\s*BitMask\s*=\s*bits::(BIT_\d)\s*;", body)
+    if not cm:
+        bad.append("AnalogConversions::OVER_RANGE")
+    else:
+        bits = api.strip_comments(api.src(BIT))
+        bm = re.search(r"const\s+%s\s*:\s*BitMask\s*=\s*BitMask\s*\{\s*value\s*:\s*(0b[01_]+|0x[0-9A-Fa-f_]+|\d+)\s*\}\s*;" % cm.group(1), bits)
+        if not bm:
+            bad.append("bits::" + cm.group(1))
+        else:
+            mask = int(bm.group(1).replace("_", ""), 0)
+    # `Flags::with_bits_set` must be the plain OR
+    wm = re.search(r"fn\s+with_bits_set\s*\(\s*&self\s*,\s*mask\s*:\s*BitMask\s*\)\s*->\s*Flags\s*\{", text)
+    if not wm or norm(brace_body(text, wm.end())[0]) != "Flags::new(self.value | mask.value)":
+        bad.append("Flags::with_bits_set")
+    # the accessors of every impl are the plain fields
+    ext = api.strip_tests(api.strip_comments(api.src(EXT)))
+    n_impl = 0
+    for im in re.finditer(r"impl\s+AnalogConversions\s+for\s+(\w+)\s*\{", ext):
+        n_impl += 1
+        ibody, _ = brace_body(ext, im.end())
+        fns = {}
+        for fm in re.finditer(r"fn\s+(\w+)\s*\(\s*&self\s*\)\s*->\s*(\w+)\s*\{", ibody):
+            fns[fm.group(1)] = (fm.group(2), norm(brace_body(ibody, fm.end())[0]))
+        if fns != {"get_value": ("f64", "self.value"), "get_flags": ("Flags", "self.flags")}:
+            bad.append("impl AnalogConversions for %s" % im.group(1))
+    if n_impl == 0:
+        bad.append("impl AnalogConversions:none")
+    # methods of the trait: the two accessors are declared, everything with a body is a conversion
+    seen = []
+    pos = 0
+    while True:
+        fm = re.compile(r"fn\s+(\w+)\s*\(([^)]*)\)\s*->\s*([^{;]+?)\s*([{;])").search(body, pos)
+        if not fm:
+            break
+        name, args, ret, term = fm.group(1), norm(fm.group(2)), norm(fm.group(3)), fm.group(4)
+        if term == ";":
+            pos = fm.end()
+            if (name, args, ret) not in (("get_value", "&self", "f64"), ("get_flags", "&self", "Flags")):
+                bad.append("AnalogConversions::%s:declaration" % name)
+            continue
+        fbody, pos = brace_body(body, fm.end())
+        seen.append(name)
+        if name not in ACONV:
+            bad.append("AnalogConversions::%s:unknown-conversion" % name)
+            continue
+        lean, ty = ACONV[name]
+        if args != "&self" or ret != "(Flags, %s)" % ty:
+            bad.append("AnalogConversions::%s:signature" % name)
+            continue
+        guards = {
+            "self.get_value().is_nan()": "isNan",
+            "self.get_value() < %s::MIN.into()" % ty: "ltMin",
+            "self.get_value() > %s::MAX.into()" % ty: "gtMax",
+        }
+        values = {"%s::MIN" % ty: "min", "%s::MAX" % ty: "max", "self.get_value() as %s" % ty: "cast"}
+        values["0.0" if ty == "f32" else "0"] = "zero"
+
+        def pair(tup, what):
+            parts = [norm(x) for x in split_top(tup)]
+            if len(parts) != 2 or parts[0] not in A_FLAGS or parts[1] not in values:
+                bad.append("AnalogConversions::%s:%s:(%s)" % (name, what, norm(tup)))
+                return None
+            return A_FLAGS[parts[0]], values[parts[1]]
+
+        rest = fbody.strip()
+        branches = []
+        ok = True
+        while True:
+            bm = re.match(r"if\s+([^{}]+?)\s*\{\s*return\s*\(([^;{}]*)\)\s*;\s*\}\s*", rest, flags=re.S)
+            if not bm:
+                break
+            g = norm(bm.group(1))
+            if g not in guards:
+                bad.append("AnalogConversions::%s:guard:%s" % (name, g))
+                ok = False
+                break
+            pr = pair(bm.group(2), "branch")
+            if pr is None:
+                ok = False
+                break
+            branches.append((guards[g], pr[0], pr[1]))
+            rest = rest[bm.end():]
+        if not ok:
+            continue
+        lm = re.fullmatch(r"\((.*)\)", rest.strip(), flags=re.S)
+        if not lm:
+            bad.append("AnalogConversions::%s:tail:%s" % (name, norm(rest)[:80]))
+            continue
+        last = pair(lm.group(1), "tail")
+        if last is None:
+            continue
+        rows.append((lean, ty, branches, last[0], last[1]))
+    if sorted(seen) != sorted(ACONV):
+        bad.append("AnalogConversions:methods:" + ",".join(seen))
+    return rows, mask, bad
 
 
 def generate(api):
@@ -158,6 +291,9 @@ def generate(api):
         bad.append("impl-count:%d-of-%d" % (seen, n_impl))
     for b in bad:
         api.broken("translator:%s:%s:%s" % (GEN, SRC, b))
+    arows, or_mask, abad = analog_conversions(api)
+    for b in abad:
+        api.broken("translator:%s:%s:%s" % (GEN, MEAS, b))
 
     out = "namespace Dnp3.Gen.Conv\n\n"
     out += "/-- measurement types of app/measurement.rs that have generated conversions -/\n"
@@ -183,6 +319,22 @@ def generate(api):
     out += ",\n".join("  ⟨.%s, %d, %d, .%s, .%s, .%s, .%s, .%s⟩" % r for r in from_rows)
     out += "\n]\n\n"
     out += "/-- number of `impl` blocks in the source file -/\ndef implCount : Nat := %d\n\n" % n_impl
+    out += "/-! ## `AnalogConversions::{to_i16,to_i32,to_f32}` (%s) -/\n\n" % MEAS
+    out += "/-- guard of an early return: `self.get_value().is_nan()`, `self.get_value() < T::MIN.into()`,\n`self.get_value() > T::MAX.into()` (T = the target type) -/\n"
+    out += "inductive AGuard | isNan | ltMin | gtMax\n  deriving DecidableEq, Repr\n\n"
+    out += "/-- value component of a returned pair: the literal zero, `T::MIN`, `T::MAX`, `self.get_value() as T` -/\n"
+    out += "inductive ARet | zero | min | max | cast\n  deriving DecidableEq, Repr\n\n"
+    out += "/-- `if <guard> { return (<flags>, <ret>); }`; `overRange`: the flags component is\n`self.get_flags().with_bits_set(Self::OVER_RANGE)` (true) or `self.get_flags()` (false) -/\n"
+    out += "structure ABranch where\n  guard : AGuard\n  overRange : Bool\n  ret : ARet\n  deriving DecidableEq, Repr\n\n"
+    out += "/-- one conversion: `fn <conv>(&self) -> (Flags, <target>)`, its early returns in source order and\nthe final pair expression -/\n"
+    out += "structure AConv where\n  conv : Conv\n  target : WTy\n  branches : List ABranch\n  lastOverRange : Bool\n  last : ARet\n  deriving DecidableEq, Repr\n\n"
+    out += "/-- the default methods of `trait AnalogConversions`, in source order -/\ndef analogConvs : List AConv := [\n"
+    out += ",\n".join(
+        "  ⟨.%s, .%s, [%s], %s, .%s⟩" % (lean, ty, ", ".join("⟨.%s, %s, .%s⟩" % b for b in br), lo, lv)
+        for lean, ty, br, lo, lv in arows)
+    out += "\n]\n\n"
+    out += "/-- `AnalogConversions::OVER_RANGE` (a `bits::BIT_n` of util/bit.rs) as the octet mask that\n`Flags::with_bits_set` ORs in -/\n"
+    out += "def overRangeMask : Nat := %d\n\n" % (or_mask if or_mask is not None else 0)
     out += "end Dnp3.Gen.Conv\n"
     api.emit(GEN, out)
 
